@@ -52,10 +52,11 @@ TRUSTED = c10mod.TRUSTED + [
     "modes that start outside a transaction; `transactional_ddl` is a field of the plan that the model never reads (the unchanged _create "
     "does not consult it) - the theorems hold for both values and the harness runs both",
     "fault model: a fault raises before the statement runs (before_cursor_execute); a statement that takes effect and then reports failure "
-    "is not modelled",
+    "is not modelled; the class of the raised exception (Exception / KeyboardInterrupt / SystemExit / bare BaseException) is an input of "
+    "the harness and a field of the model's plan (FailKind) that no model function reads - the unchanged handler is a bare `except:`",
 ]
 RULE = (
-    "C10's table/row/op generators x connection mode (pysqlite legacy / AUTOCOMMIT / BEGIN recipe) x transactional_ddl option (default / True); for each case the fault-free run gives the statement count n, then a fault is injected at "
+    "C10's table/row/op generators x connection mode (pysqlite legacy / AUTOCOMMIT / BEGIN recipe) x transactional_ddl option (default / True) x class of the injected exception (Exception / KeyboardInterrupt / SystemExit / BaseException); for each case the fault-free run gives the statement count n, then a fault is injected at "
     "k = 0..n-1 (quick: 3 sampled k per case, thorough: every k; plus two-step scenarios: a first batch fails at the RENAME under durable statements so that all rows live under the temporary name only, then the migration is retried - reflected or with copy_from, with or without an empty table re-created under the original name, with or without a fault at its first statement) under each scope (none / outer / swallow); natural failures come from the "
     "fault-free runs.  Non-trivial = the run failed after at least one statement and the table had >= 1 row; distinct by "
     "(statement kinds up to the failure, outcome, scope, recreate, copy_from)"
@@ -66,6 +67,7 @@ ASSUMPTIONS = c10mod.ASSUMPTIONS + ["single fault: only one statement fails (the
 def input_of(case):
     return {"table": case["table"], "ops": case["ops"], "recreate": case["recreate"], "copy_from": case["copy_from"],
             "fault": case["fault"], "scope": case["scope"], "iso": case.get("iso", "default"), "tddl": case.get("tddl"),
+            "fkind": case.get("fkind", "exception"),
             **({"two_step": case["two_step"]} if case.get("two_step") else {})}
 
 
@@ -112,9 +114,10 @@ def two_step(ctx, base, k_rename, rng, pending):
     """step 1: fault at the RENAME with durable statements (rows end up under the temporary name only);
     step 2: the migration again on that database (see batch_corr.run_two_step)"""
     iso, scope = rng.choice([("autocommit", "none"), ("autocommit", "outer"), ("default", "swallow"), ("begin", "swallow")])
-    c1 = bc.new_case(base["table"], base["ops"], base["recreate"], base["copy_from"], k_rename, scope, iso, rng.choice(TDDLS))
+    c1 = bc.new_case(base["table"], base["ops"], base["recreate"], base["copy_from"], k_rename, scope, iso, rng.choice(TDDLS),
+                     rng.choice(FKINDS))
     st = {"recreate_empty": rng.random() < 0.5, "copy_from": rng.random() < 0.6, "fault": rng.choice([None, None, 0]),
-          "scope": rng.choice(SCOPES), "tddl": rng.choice(TDDLS)}
+          "scope": rng.choice(SCOPES), "tddl": rng.choice(TDDLS), "fkind": rng.choice(FKINDS)}
     r1, c2, r2 = bc.run_two_step(c1, st)
     ctx.evaluation()
     ctx.hist("two_step", "step1 did not leave the rows under the temp name only" if r2 is None else
@@ -134,6 +137,8 @@ def one(ctx, case, pending):
     ctx.hist("scope", case["scope"])
     ctx.hist("connection", case.get("iso", "default"))
     ctx.hist("transactional_ddl", "default" if case.get("tddl") is None else str(case.get("tddl")))
+    if case["fault"] is not None:
+        ctx.hist("fault_exception_class", case.get("fkind", "exception"))
     ctx.hist("fault", "none" if case["fault"] is None else ("k=%d" % case["fault"] if case["fault"] < 8 else "k>=8"))
     if r["outcome"] != "ok":
         last = r["stmts"][-1].split(":")[0] if r["stmts"] else "(before any statement)"
@@ -151,6 +156,8 @@ def one(ctx, case, pending):
 SCOPES = ["none", "outer", "swallow"]
 ISOS = ["default", "autocommit", "begin"]     # pysqlite legacy / isolation_level="AUTOCOMMIT" / the BEGIN recipe
 TDDLS = [None, True]                          # transactional_ddl option of the MigrationContext
+# class of the injected exception: Exception / KeyboardInterrupt / SystemExit / a bare BaseException subclass
+FKINDS = ["exception", "exception", "keyboard", "systemexit", "base"]
 
 _T = {"name": "t", "cols": [
     {"name": "id", "ty": "INTEGER", "aff": "Integer", "nullable": False, "default": None, "dval": None, "pk": True},
@@ -195,7 +202,7 @@ def run(ctx, n_cases=None, rng_name="main"):
             for k in ks:
                 for sc in (SCOPES if ctx.thorough else [rng.choice(SCOPES)]):
                     for iso in (ISOS if ctx.thorough else [rng.choice(ISOS)]):
-                        one(ctx, bc.new_case(t, ops, recreate, copy_from, k, sc, iso, rng.choice(TDDLS)), pending)
+                        one(ctx, bc.new_case(t, ops, recreate, copy_from, k, sc, iso, rng.choice(TDDLS), rng.choice(FKINDS)), pending)
         if r0["outcome"] == "ok" and "renameTmp" in r0["stmts"] and rng.random() < (0.5 if ctx.thorough else 0.4):
             two_step(ctx, base, r0["stmts"].index("renameTmp"), rng, pending)
         if len(pending) >= 200:
@@ -251,13 +258,13 @@ def replay(ctx, case):
     if inp.get("two_step"):
         s1, s2 = inp["two_step"]["step1"], inp["two_step"]["step2"]
         c1 = bc.new_case(inp["table"], inp["ops"], inp.get("recreate", "always"), s1["copy_from"], s1["fault"], s1["scope"],
-                         inp.get("iso", "default"), s1.get("tddl"))
+                         inp.get("iso", "default"), s1.get("tddl"), s1.get("fkind") or "exception")
         r1, c, r = bc.run_two_step(c1, s2)
         if r is None:
             return {"step1": bc.brief(r1), "note": "step 1 did not leave the rows under the temporary name only"}
     else:
         c = bc.new_case(inp["table"], inp["ops"], inp.get("recreate", "always"), inp.get("copy_from", False), inp.get("fault"),
-                        inp.get("scope", "none"), inp.get("iso", "default"), inp.get("tddl"))
+                        inp.get("scope", "none"), inp.get("iso", "default"), inp.get("tddl"), inp.get("fkind", "exception"))
         r = bc.run_impl(c)
     m = ctx.drv.ask1(bc.model_op(c, r))
     out = {"impl": bc.brief(r), "model": {"stmts": m.get("stmts"), "outcome": m.get("outcome")}, "differences": bc.compare(c, r, m)}
